@@ -96,6 +96,39 @@ pub fn run(ctx: &mut Ctx) {
 		);
 		ctx.add(fam);
 	}
+	if ctx.wants("W_width_boundaries") {
+		ctx.begin_family("W_width_boundaries");
+		let mut fam = Fam::new("W_width_boundaries", "containers whose compact rendering is exactly 2^k - 2 .. 2^k + 2 bytes wide for k in 8, 15, 16, 17 (arrays of one-digit numbers, an object with short keys, one long string inside an array), plus one array of 70,000 items and one 200,000-character string: compact outputs == reference; every case is non-trivial", true);
+		let mut cases: Vec<RefValue> = vec![];
+		for k in [8u32, 15, 16, 17] {
+			for d in -2i64..=2 {
+				let w = (1i64 << k) + d;
+				// array of n one-digit numbers: width 2n + 1 (n >= 1); odd widths only, even ones get a two-digit first item (+1)
+				let n = ((w - 1) / 2) as usize;
+				let mut items: Vec<RefValue> = (0..n).map(|i| RefValue::Num(((i % 9) + 1).to_string())).collect();
+				if (w - 1) % 2 == 1 && !items.is_empty() {
+					items[0] = RefValue::num("10");
+				}
+				cases.push(RefValue::Arr(items));
+				// one string inside an array: ["aaa..."] width = len + 4
+				cases.push(RefValue::Arr(vec![RefValue::Str("a".repeat((w - 4).max(0) as usize))]));
+				// object {"k":[...]} nested
+				let inner: Vec<RefValue> = (0..((w - 7).max(1) / 2) as usize).map(|_| RefValue::num("7")).collect();
+				cases.push(RefValue::Obj(vec![("k".into(), RefValue::Arr(inner))]));
+			}
+		}
+		cases.push(RefValue::Arr((0..70_000).map(|i| RefValue::Num((i % 10).to_string())).collect()));
+		cases.push(RefValue::Str("\u{e9}x".repeat(100_000)));
+		for v in &cases {
+			fam.tick();
+			match crate::framework::guarded(|| property(v, false)) {
+				Ok(Ok(())) => fam.nontrivial(),
+				Ok(Err(m)) | Err(m) => fam.fail(json!({"shape": "width boundary case", "compact_len": refprint::compact(v).len()}), crate::framework::truncate(&m, 300), None),
+			}
+		}
+		fam.sample(|| json!({"array_of_one_digit_numbers": 32767, "compact_width": 65535}));
+		ctx.add(fam);
+	}
 	if ctx.wants("B_small_values") {
 		ctx.begin_family("B_small_values");
 		let mut fam = Fam::new("B_small_values", "bounded-exhaustive: every value of the small-value set (<= 3 levels over 6 leaves)", true);
